@@ -2,7 +2,7 @@
 from .regexcommon import *
 from .c02 import dfa_accepts
 
-LEVEL = "other"
+LEVEL = "proof"
 
 
 def run(ctx):
